@@ -183,7 +183,14 @@ func (u *Unmarshaler) fillSlice(fieldType reflect.Type, value reflect.Value, map
 	}
 
 	conv := reflect.MakeSlice(reflect.SliceOf(baseType), refValue.Len(), refValue.Cap())
+	// value 不一定是 []baseType（数组字段 [2]int 的默认值、*[]int 字段）：
+	// 此时 Set 会 panic，改为返回类型不匹配错误。
+	settable := conv.Type().AssignableTo(value.Type())
 	if refValue.Len() == 0 {
+		if !settable {
+			return errTypeMismatch
+		}
+
 		value.Set(conv)
 		return nil
 	}
@@ -231,6 +238,10 @@ func (u *Unmarshaler) fillSlice(fieldType reflect.Type, value reflect.Value, map
 	}
 
 	if valid {
+		if !settable {
+			return errTypeMismatch
+		}
+
 		value.Set(conv)
 	}
 
@@ -260,6 +271,10 @@ func (u *Unmarshaler) fillSliceFromString(fieldType reflect.Type, value reflect.
 		if err := u.fillSliceValue(conv, i, baseFieldKind, slice[i]); err != nil {
 			return err
 		}
+	}
+
+	if !conv.Type().AssignableTo(value.Type()) {
+		return errTypeMismatch
 	}
 
 	value.Set(conv)
